@@ -508,6 +508,20 @@ func genStr() *rapid.Generator[string] {
 	return rapid.OneOf(rapid.Just(""), rapid.SampledFrom([]string{"/p", "h2.com", "a=1", "body"}), rapid.StringMatching(`[ -~]{0,12}`))
 }
 
+// genBody: mostly short texts, sometimes a body around and beyond the sizes at which buffers, log lines and
+// frames are cut (2 KiB, 4 KiB, 64 KiB), with multi-byte characters so that a cut can fall inside one
+func genBody() *rapid.Generator[string] {
+	return rapid.Custom(func(t *rapid.T) string {
+		if rapid.IntRange(0, 5).Draw(t, "big") != 0 {
+			return genStr().Draw(t, "s")
+		}
+		n := rapid.SampledFrom([]int{255, 256, 1023, 1024, 2047, 2048, 2049, 4095, 4097, 5000, 65535, 65537, 70000}).Draw(t, "size")
+		unit := rapid.SampledFrom([]string{"x", "{\"k\":\"v\"},", "é", "日本"}).Draw(t, "unit")
+		b := strings.Repeat(unit, n/len(unit)+1)
+		return b[:n]
+	})
+}
+
 func genReqSpec() *rapid.Generator[spec] {
 	return rapid.Custom(func(t *rapid.T) spec {
 		k := rapid.SampledFrom([]string{"noop", "hdr", "hdr", "mod", "mod", "gen", "early"}).Draw(t, "kind")
@@ -517,14 +531,14 @@ func genReqSpec() *rapid.Generator[spec] {
 			s.Headers = genHeaders().Draw(t, "h")
 		case "mod":
 			s.Headers = genHeaders().Draw(t, "h")
-			s.Host, s.Path, s.Query, s.Body = genStr().Draw(t, "host"), genStr().Draw(t, "path"), genStr().Draw(t, "query"), genStr().Draw(t, "body")
+			s.Host, s.Path, s.Query, s.Body = genStr().Draw(t, "host"), genStr().Draw(t, "path"), genStr().Draw(t, "query"), genBody().Draw(t, "body")
 		case "gen":
 			s.Headers = genHeaders().Draw(t, "h")
 			s.Remove = rapid.SliceOfN(rapid.SampledFrom(append([]string{"host", "x-z"}, namePool...)), 0, 2).Draw(t, "rm")
-			s.Body = genStr().Draw(t, "body")
+			s.Body = genBody().Draw(t, "body")
 		case "early":
 			s.Headers = genHeaders().Draw(t, "h")
-			s.Body = genStr().Draw(t, "body")
+			s.Body = genBody().Draw(t, "body")
 			s.Status = rapid.SampledFrom([]int{200, 204, 403, 429, 500, 503}).Draw(t, "status")
 		}
 		return s
@@ -538,7 +552,7 @@ func genRespSpec() *rapid.Generator[spec] {
 		switch k {
 		case "modresp":
 			s.Headers = genHeaders().Draw(t, "h")
-			s.Body = genStr().Draw(t, "body")
+			s.Body = genBody().Draw(t, "body")
 			s.Status = rapid.SampledFrom([]int{200, 201, 404, 429, 500}).Draw(t, "status")
 		case "retry":
 			s.Headers = genHeaders().Draw(t, "h")
